@@ -28,6 +28,8 @@ type c20Opts struct {
 	localClose bool  // a second server-side thread closes the stream at any moment
 	closeInCB  bool  // OnData consumes and then closes the stream (first call)
 	lazyClient bool  // every flush of the client may land at any moment (one deviation per flush placed)
+	rhythm     bool  // the client flushes message k+1 as soon as OnData has consumed message k (request after request)
+	slowCB     bool  // OnData takes time (1 virtual ms) before it consumes: other threads run meanwhile by default
 }
 
 func c20Body(o c20Opts) func() {
@@ -53,6 +55,9 @@ func c20Body(o c20Opts) func() {
 						// "... and stops being offered once the stream is closed": no OnData call may START after a local
 						// Close has returned (one that was already running may finish)
 						vrt.Failf("ondata-after-close", "an OnData call started after Stream.Close had returned (%d bytes consumed before, %d buffered now)", len(rc.got), r.Len())
+					}
+					if o.slowCB {
+						vrt.Sleep(ms)
 					}
 					n := r.Len()
 					if o.chunk > 0 && n > o.chunk {
@@ -99,6 +104,10 @@ func c20Body(o c20Opts) func() {
 					break
 				}
 				flushed += n
+				if o.rhythm {
+					want := flushed
+					vrt.Point("wait-consumed", func() bool { return rc != nil && len(rc.got) >= want })
+				}
 			}
 			if o.peerClose {
 				st.Close()
@@ -151,6 +160,10 @@ func TestVerif_C20(t *testing.T) {
 		{Name: "two-close-inside-ondata", Bound: 2, BoundT: 3, Body: c20Body(c20Opts{sizes: []int{5, 6}, closeInCB: true})},
 		{Name: "close-inside-ondata-with-bytes-left", Bound: 1, BoundT: 2, Body: c20Body(c20Opts{sizes: []int{8, 6}, chunk: 3, closeInCB: true})},
 		{Name: "three-shm-chunked-lazy-writer", Bound: 2, BoundT: 3, Body: c20Body(c20Opts{sizes: []int{4, 4, 4}, chunk: 3, lazyClient: true})},
+		{Name: "three-shm-lazy-writer-slow-callback", Bound: 2, BoundT: 3, Body: c20Body(c20Opts{sizes: []int{4, 4, 4}, lazyClient: true, slowCB: true})},
+		// "data that arrives just as the callback returns": each message is flushed the moment the previous one was consumed
+		{Name: "next-message-as-callback-returns-slow-callback", Bound: 2, BoundT: 3, Body: c20Body(c20Opts{sizes: []int{4, 4, 4}, rhythm: true, slowCB: true})},
+		{Name: "next-message-as-callback-returns", Bound: 2, BoundT: 3, Body: c20Body(c20Opts{sizes: []int{4, 4, 4}, rhythm: true})},
 		{Name: "local-close-anytime-chunked", Bound: 1, BoundT: 2, Body: c20Body(c20Opts{sizes: []int{8, 6}, chunk: 3, localClose: true})},
 	})
 }
